@@ -258,8 +258,8 @@ func genStr(r *gen.Rand, allowEmpty bool) string {
 		}
 	case r.Chance(1, rare):
 		n = int(r.Range(120, 135)) // around the 1-/2-byte uvarint length boundary
-	case rare < 20 && r.Chance(1, 40*rare):
-		n = int(r.Range(16380, 16390)) // 2-/3-byte boundary
+	case rare < 20 && r.Chance(1, 10*rare):
+		n = int(r.Range(300, 2100)) // long strings (a 16 KiB list literal overflows coqc's stack, so the 2-/3-byte length boundary is left to the proofs)
 	}
 	b := make([]byte, n)
 	raw := r.Chance(1, 5)
@@ -678,9 +678,9 @@ func main() {
 	f := gallina.ParseFlags()
 	meta := gallina.NewMeta("C14", f.Seed, f.Tier)
 	meta.Rule = "per record family a seeded stream of batches (0, 1, few, many elements; refs with negative/large/wrapping deltas; extreme and wrapping timestamps; ST patterns none/repeated/explicit/mixed/extreme; float payloads incl. NaN payloads; empty/large/unsorted/non-UTF-8 label sets; histogram batches none/few/half/all custom-bucket, reserved and unknown schemas), each encoded by the real Encoder and decoded by the real Decoder; plus truncated / extended / wrong-type / garbage byte strings through the real Decoder. non-trivial = round-trip case with at least 2 elements, or a mutated byte string; distinct by (kind, bytes)"
-	perShard := 160
+	perShard := 180
 	if f.Tier == "thorough" {
-		perShard = 1000
+		perShard = 600
 	}
 	cf := &gallina.CaseFile{Dir: f.Out, Type: "case", PerShard: perShard,
 		Preamble: "From Coq Require Import List NArith ZArith.\nFrom Verif Require Import lib.Int64 lib.Bytes lib.Varint model.Record corr.CorrC14.\nImport ListNotations.\nOpen Scope N_scope.\n",
@@ -719,7 +719,7 @@ func main() {
 	if f.Tier == "thorough" {
 		rare = 12
 	}
-	perKind := f.Count(36, 1200)
+	perKind := f.Count(55, 300)
 	idx := 0
 	for i := 0; i < perKind; i++ { // kinds interleaved so that the shards are balanced
 		for _, k := range kinds {
@@ -756,7 +756,7 @@ func main() {
 		}
 	}
 	// garbage through the decoders that read no element counts (no allocation/loop blow-up possible)
-	ng := f.Count(120, 8000)
+	ng := f.Count(200, 2500)
 	for i := 0; i < ng; i++ {
 		r := gen.Fork(f.Seed, idx)
 		k := gen.Pick(r, []string{"KSamplesV1", "KSamplesV2", "KStones", "KMmap"})
